@@ -1,0 +1,69 @@
+// Copyright ©2024 The bíogo Authors. All rights reserved.
+// Use of this source code is governed by a BSD-style
+// license that can be found in the LICENSE file.
+
+//go:build verif
+
+package cache
+
+import (
+	"sort"
+
+	"github.com/biogo/hts/bgzf"
+)
+
+// VerifDump returns the blocks indexed by c in policy order (LRU/FIFO: next eviction victim
+// last; Random: ascending key), the keys they are indexed under, and the capacity. It takes no
+// locks and is meant to be called while no operation is in flight.
+func VerifDump(c bgzf.Cache) (blocks []bgzf.Block, keys []int64, capacity int) {
+	switch c := c.(type) {
+	case *LRU:
+		return dumpList(&c.root, c.table), keysOf(&c.root, c.table), c.cap
+	case *FIFO:
+		return dumpList(&c.root, c.table), keysOf(&c.root, c.table), c.cap
+	case *Random:
+		for k := range c.table {
+			keys = append(keys, k)
+		}
+		sort.Slice(keys, func(i, j int) bool { return keys[i] < keys[j] })
+		for _, k := range keys {
+			blocks = append(blocks, c.table[k])
+		}
+		return blocks, keys, c.cap
+	case *StatsRecorder:
+		return VerifDump(c.Cache)
+	}
+	return nil, nil, -1
+}
+
+func dumpList(root *node, table map[int64]*node) []bgzf.Block {
+	var bs []bgzf.Block
+	for n := root.next; n != root && n != nil; n = n.next {
+		bs = append(bs, n.b)
+		if len(bs) > len(table)+8 {
+			break
+		}
+	}
+	return bs
+}
+
+// keysOf returns, for every list node in order, the key under which the table indexes it
+// (-1 if the table does not index that node).
+func keysOf(root *node, table map[int64]*node) []int64 {
+	rev := make(map[*node]int64, len(table))
+	for k, n := range table {
+		rev[n] = k
+	}
+	var ks []int64
+	for n := root.next; n != root && n != nil; n = n.next {
+		if k, ok := rev[n]; ok {
+			ks = append(ks, k)
+		} else {
+			ks = append(ks, -1)
+		}
+		if len(ks) > len(table)+8 {
+			break
+		}
+	}
+	return ks
+}
